@@ -690,7 +690,11 @@ class Runner:
         if obs and obs.unmapped:
             for u in obs.unmapped[:3]:
                 self.stats["unmapped_statements"].append(dict(u, scenario=sc["name"], config=cfg["id"]))
-        if sc["user"]:
+        if exc is not None and not sc["user"]:
+            # the operation fails by itself on this configuration (e.g. a function the backend lacks):
+            # that is a failing call as well - check it like a user-level failure
+            ctx.notes.append(f"scenario {sc['name']} raised without a fault on {cfg['id']}: {type(exc).__name__}: {str(exc)[-200:]}")
+        if sc["user"] or exc is not None:
             ctx.hist("scenario_kind", "user_level")
             if exc is None:
                 ctx.notes.append(f"user-level scenario {sc['name']} did not raise on {cfg['id']}")
@@ -712,10 +716,6 @@ class Runner:
                     ctx.hist("unmodelled_failure", sc["name"])
             return
         ctx.hist("scenario_kind", "sql_fault")
-        if exc is not None:
-            ctx.notes.append(f"scenario {sc['name']} raised without a fault on {cfg['id']}: {type(exc).__name__}: {str(exc)[-200:]}")
-            ctx.count_case((cfg["id"], sc["name"], "broken"), False)
-            return
         ks = [k for k in range(1, N + 1) if (k - 1 - offset) % stride == 0] if stride > 1 else list(range(1, N + 1))
         for k in ks:
             lk2, api2, aux2 = self.fresh(cfg, sc)
